@@ -17,6 +17,18 @@ CLAIMED["C01"] = ("The real balance and coin-list readers (UtxoStore.ScriptAddre
 CLAIMED["C17"] = ("The two readers that every balance, coin-list and transaction-building call goes through (ScriptAddressBalance, ScriptAddressUnspents) are executed symbolically with the commit schedule as symbolic data: the tip height read first and the tip at the moment the coin iterator is created are arbitrary with syncRead <= tipIter, the coin is any coin visible to the iterator. z3 decides that no coin immature at every block boundary of the window is reported spendable/withdrawable or passes the maturity test, and that no coin is counted or listed twice.",
          "Trusted: z3, go/ssa, the model database (iterators are snapshots at creation, point reads are live, as in goleveldb). Not claimed: the second sentence of the property (absence of data races: a happens-before property of goroutines that a sequential symbolic executor cannot decide), reorganisations or spends inside the window, and full single-snapshot semantics of a read transaction (the driver takes no snapshot).", "5/C17")
 
+CLAIMED["C06"] = ("What a restart reads back is decided symbolically on the real store code over the model database: the per-wallet status record that drives resumption (PutWalletStatus / GetWalletStatus / GetAllWalletStatus / MarkDeleteWallet, Ready, IsRemoved) round-trips for every (height, flags), and the synced-to chain (SetSyncedTo / ResetSyncedTo / SyncedTo, shared with C01) accepts exactly the next or current height and leaves exactly the chain up to the pointer, so the persisted resume point is always a fully applied block.",
+         "Trusted: z3, go/ssa, model database. This is only the persisted-state half of the property: crash atomicity of one commit is LevelDB's batch write (not encoded), and the start-up catch-up loop, the worker's resume decision and restartable removal (DESIGN 5/C06 T1a second half, T2) are not covered yet. Heights below 2^56 assumed.", "5/C06")
+
+CLAIMED["C08"] = ("The wallet-keyed deletions of a removal (RemoveUnspentByWalletId, RemoveAddressByWalletId, RemoveGameHistoryByWalletId via deleteByPrefix) are executed symbolically over buckets holding a record of the removed wallet next to a record with an arbitrary 42-byte id: z3 decides that no key with the removed id survives and that every other record is byte-identical afterwards.",
+         "Trusted: z3, go/ssa, model database. Not covered yet: the credit/debit/transaction-record sweep by script hash (removeRelevantCredit, removableTxForRemoveWallet), keystore bucket deletion, the passphrase and importing gates, restart between removal steps (DESIGN 5/C08 T1b/T1c/T2).", "5/C08")
+
+CLAIMED["C10"] = ("The staking/binding history records (keyGameHistory, keyUnminedGameHistory, readGameHistory, withdrawGame, unwithdrawGame, getRawGameHistoryByWalletId) are executed symbolically for an arbitrary deposit: the key codec round-trips, withdraw followed by un-withdraw restores the single original record, each fails exactly when its source record is absent, and the listing prefixes select by type and withdrawn state. Maturity of staking (frozen+1) and binding outputs is decided under C16; withdrawable classification under C01.",
+         "Trusted: z3, go/ssa, model database. Not covered yet: sequence numbers chosen by addTxIn/constructTxIn against the consensus sequence-lock rule and the deposit/withdraw path through AddCredits/Rollback (DESIGN 5/C10 T1b/T2).", "5/C10")
+
+CLAIMED["C18"] = ("Store steps (SetSyncedTo, ResetSyncedTo, PutWalletStatus, MarkDeleteWallet, withdrawGame, RemoveUnspentByWalletId, putRawUnminedInput, ScriptAddressBalance) run symbolically inside the real db.Update with the index of the failing database call as a symbolic integer (none, or the 1st..8th fallible call: begin, get, prefix scan, iterator, commit). z3 decides that whenever the fault occurred the operation returned an error, and that a failed update left every bucket byte-identical.",
+         "Trusted: z3, go/ssa, the model database's fault model (put/delete cannot fail inside a write transaction, as in the LevelDB driver; a failed commit writes nothing). Not covered yet: block/reorg processing, keystore cache repair (RemoveCachedKeystore), worker retries, faults inside LevelDB (DESIGN 5/C18 T1a driver half, T2).", "5/C18")
+
 CLAIMED["C09"] = ("The real UtxoStore/TxStore functions (ScriptAddressUnspents, ExistsUtxo, insertUnminedInputs, putRawUnminedInput, fetchUnminedInputSpendTxHashes and the record codecs they use) run symbolically over a model wallet database whose content is an arbitrary valid credit (any hash, index, height, amount, maturity, class) with or without a pending spender recorded by the real writer; z3 decides that the reported spent-by-pending flag equals the existence of that record. One arbitrary stored state and one step: histories of any length reach the step through the stated record invariant.",
          "Trusted: z3, go/ssa, the model database (entry lists, atomic transactions; not LevelDB). Bound: one coin, one wallet, <=3 pending spenders per outpoint. Not yet covered: settle/conflict/rollback steps (DESIGN 5/C09 T2).", "5/C09")
 
